@@ -58,6 +58,11 @@ CLAIMED = {
  "C16": ("4/C16", "unary ufuncs, binary ufuncs of two equally long run-length arrays (all alignments of the two boundary sets), scalar on either side (ufunc and operator forms), "
          "sum/np.sum/any/all/max, concatenate of 2-3: decoded result equals the ufunc on the dense arrays, binary results canonical, operands unchanged",
          "bounds: n<=3 (4); int64/bool/uint8+int8 cells as bit-vectors; mean and histogram not yet covered"),
+ "C17": ("4/C17", "RunLength2dArray.from_array / RunLengthRaggedArray.from_ragged_array / from_array / from_intervals: decode round trip, len/shape/size, row selectors "
+         "(int, slice with steps None/-1/2, list, mask), element, column int, column slices under the property's precondition (non-empty in every selected row; negative steps with bounds "
+         "inside the rows), row x column slices, row sum/any/all/max/argmax (+np.sum, np.max), column sum / any / counts, ravel, concatenate, unary ufunc, ufunc with scalar and (n_rows,1) "
+         "column on either side.  Structure, selector parameters and the run layout are forked (run boundaries concrete per path); cell values, scalars, columns symbolic",
+         "bounds: rows<=2 (3), row length<=3 (4), cell values 0..3; quick column slices: one row up to length 3, two rows up to length 2; mean (float) not yet covered; zero-row selections only checked for emptiness"),
  "C18": ("4/C18", "npdataclass with 1-3 fields (1-D and 2-D): len, indexing by int / slice (symbolic bounds, steps None,-1,2) / list / array / mask, iteration, concatenate of 2-3, ==, "
          "astype to a narrower class, refusal of unequal field lengths; VarLenArray concatenation (right-aligned, zero-padded)",
          "bounds: n<=3 (4)"),
